@@ -30,17 +30,17 @@ template <typename Char_T> struct String {
 #include "JSONUtils.hpp"
 namespace Qentem {
 enum struct ValueType : SizeT8 { Undefined = 0, ValuePtr, Object, Array, String, UIntLong, IntLong, Double, True, False, Null };
-struct ShapeChild { SizeT8 type{0}; SizeT8 keylen{0}; SizeT16 n{0}; unsigned long long payload{0}; unsigned key[3]{0, 0, 0}; };
+struct ShapeChild { SizeT8 type{0}; SizeT8 keylen{0}; SizeT16 n{0}; unsigned long long payload{0}; unsigned key[3]{0, 0, 0}; unsigned sv[3]{0, 0, 0}; };
 template <typename Char_T> struct Value;
 template <typename T> struct Array {          // records the first 3 elements' summaries
     SizeT n{0}; ShapeChild c[3];
-    void operator+=(T &&v) { if (n < 3) { c[n].type = SizeT8(v.type_); c[n].payload = v.payload_; c[n].n = SizeT16(v.count()); } ++n; v.type_ = ValueType::Undefined; }
+    void operator+=(T &&v) { if (n < 3) { c[n].type = SizeT8(v.type_); c[n].payload = v.payload_; c[n].n = SizeT16(v.count()); c[n].sv[0] = v.sv_[0]; c[n].sv[1] = v.sv_[1]; c[n].sv[2] = v.sv_[2]; } ++n; v.type_ = ValueType::Undefined; }
 };
 template <typename K, typename V> struct HArray {
     SizeT n{0}; ShapeChild c[3];
     void Insert(K &&k, V &&v) {
         if (n < 3) {
-            c[n].type = SizeT8(v.type_); c[n].payload = v.payload_; c[n].n = SizeT16(v.count()); c[n].keylen = SizeT8(k.Length() < 255 ? k.Length() : 255);
+            c[n].type = SizeT8(v.type_); c[n].payload = v.payload_; c[n].n = SizeT16(v.count()); c[n].sv[0] = v.sv_[0]; c[n].sv[1] = v.sv_[1]; c[n].sv[2] = v.sv_[2]; c[n].keylen = SizeT8(k.Length() < 255 ? k.Length() : 255);
             SizeT i = 0; while (i < 3 && i < k.Length()) { c[n].key[i] = unsigned(k.First()[i]); ++i; }
         }
         ++n; v.type_ = ValueType::Undefined;
@@ -51,9 +51,9 @@ template <typename Char_T> struct Value {
     using ArrayT  = Array<Value>;
     Value() = default;
     ~Value() { type_ = ValueType::Undefined; }
-    Value(Value &&o) noexcept : type_{o.type_}, payload_{o.payload_}, obj_{o.obj_}, arr_{o.arr_} { o.type_ = ValueType::Undefined; }
+    Value(Value &&o) noexcept : type_{o.type_}, payload_{o.payload_}, obj_{o.obj_}, arr_{o.arr_} { sv_[0] = o.sv_[0]; sv_[1] = o.sv_[1]; sv_[2] = o.sv_[2]; o.type_ = ValueType::Undefined; }
     explicit Value(ValueType t) : type_{t} {}
-    explicit Value(String<Char_T> &&s) : type_{ValueType::String} { payload_ = s.Length(); }
+    explicit Value(String<Char_T> &&s) : type_{ValueType::String} { payload_ = s.Length(); SizeT i = 0; while (i < 3 && i < s.Length()) { sv_[i] = unsigned(s.First()[i]); ++i; } }
     explicit Value(SizeT64 n) : type_{ValueType::UIntLong} { payload_ = n; }
     explicit Value(SizeT64I n) : type_{ValueType::IntLong} { payload_ = (unsigned long long)n; }
     explicit Value(double n) : type_{ValueType::Double} { QNumber64 q; q.Real = n; payload_ = q.Natural; }
@@ -62,7 +62,7 @@ template <typename Char_T> struct Value {
     void Reset() { type_ = ValueType::Undefined; obj_.n = 0; arr_.n = 0; }
     bool IsUndefined() const { return type_ == ValueType::Undefined; }
     SizeT count() const { return type_ == ValueType::Object ? obj_.n : (type_ == ValueType::Array ? arr_.n : 0); }
-    ValueType type_{ValueType::Undefined}; unsigned long long payload_{0};
+    ValueType type_{ValueType::Undefined}; unsigned long long payload_{0}; unsigned sv_[3]{0, 0, 0};
     ObjectT obj_; ArrayT arr_;
 };
 }
